@@ -122,10 +122,15 @@ func (t Table) DDL() []string {
 }
 
 func (t Table) Migrate(ctx context.Context, pg Conn) error {
-	for _, stmt := range t.DDL() {
-		if _, err := pg.Exec(ctx, stmt); err != nil {
-			return fmt.Errorf("table %q stmt %q: %w", t.Name, stmt, err)
+	// The table may already exist with fewer columns: create it,
+	// add what is missing and only then build the indexes,
+	// which may refer to the new columns.
+	ddl := t.DDL()
+	if len(ddl) > 0 {
+		if _, err := pg.Exec(ctx, ddl[0]); err != nil {
+			return fmt.Errorf("table %q stmt %q: %w", t.Name, ddl[0], err)
 		}
+		ddl = ddl[1:]
 	}
 	diff, err := Diff(ctx, pg, t.Name, t.Columns)
 	if err != nil {
@@ -140,6 +145,11 @@ func (t Table) Migrate(ctx context.Context, pg Conn) error {
 		)
 		if _, err := pg.Exec(ctx, q); err != nil {
 			return fmt.Errorf("adding column %s/%s: %w", t.Name, c.Name, err)
+		}
+	}
+	for _, stmt := range ddl {
+		if _, err := pg.Exec(ctx, stmt); err != nil {
+			return fmt.Errorf("table %q stmt %q: %w", t.Name, stmt, err)
 		}
 	}
 	return nil
